@@ -307,7 +307,7 @@ def gen_case(rng, npol, tier):
         if rng.random() < 0.15:
             chain.append(rng.choice(["/moved", "//other.example/x", "../up", "?q=1", "//evil.example/", "//127.0.0.1/"]))
         else:
-            chain.append(gen_url(rng))
+            chain.append(gen_url(rng) or "/moved")      # an empty Location header is "no redirect" for net/http
     codes = [rng.choice([301, 302, 303, 307, 308]) for _ in range(n - 1)]
     dns = {}
     names = set()
@@ -400,7 +400,7 @@ def coq_case(pi, case, hops):
 
 def eval_model(ctx, policies, items):
     """items: list of (policy index, case, usable hops).  Returns list of number lists."""
-    per = max(1, (len(items) + 15) // 16)
+    per = min(500, max(1, (len(items) + 15) // 16))      # small shards: bounded memory per coqc, 16 at a time
     shards = []
     for i in range(0, len(items), per):
         chunk = items[i:i + per]
@@ -462,8 +462,8 @@ def main(ctx, replay):
         model_err.append(err)
 
     # ---- policies and cases
-    n_rand_pol = 60 if ctx.tier == "quick" else 600
-    n_cases = 1600 if ctx.tier == "quick" else 40000
+    n_rand_pol = 60 if ctx.tier == "quick" else 1500
+    n_cases = 1600 if ctx.tier == "quick" else 150000
     pol_in = FIXED_POLICIES + [gen_policy(rng) for _ in range(n_rand_pol)]
     cases = [gen_case(rng, len(pol_in), ctx.tier) for _ in range(n_cases)]
     # corpus: the shapes every run must contain
@@ -628,7 +628,7 @@ def main(ctx, replay):
                     bad("push:retried:%s" % c.get("_cls"), "denied delivery was attempted %s times: %s" % (r.get("attempts"), r.get("outcomes")))
                 if len(sent) != denied_at:
                     bad("push:sent:%s" % c.get("_cls"), "denied delivery: %d requests sent, %d expected" % (len(sent), denied_at))
-            elif r.get("dead_reason") == "policy_denied":
+            elif mr is not None and r.get("dead_reason") == "policy_denied":
                 bad("push:policy-denied-without-denial:%s" % c.get("_cls"), "dead-lettered as policy_denied although the policy allows every hop")
             if r.get("timed_out"):
                 bad("push:timeout", "dispatcher did not drain")
